@@ -130,12 +130,18 @@ def r_C01i(root):
     out = []; inst = 0
     fn = find_i(root, L, "TextXVisitor.visit_assignment"); fi = sem.info(fn)
     w = [c for c in calls(fn, own=True) if callee_name(c) == "ClassCrossRef" and any(k.arg == "cls_name" for k in c.keywords)]
-    cmps = [n for n in own_nodes(fn) if isinstance(n, ast.Compare) and len(n.ops) == 1 and isinstance(n.ops[0], (ast.NotEq, ast.Eq)) and any(isinstance(x, ast.Attribute) and x.attr == "cls_name" for x in (n.left, n.comparators[0]))]
+    cmps = [n for n in own_nodes(fn) if isinstance(n, ast.Compare) and len(n.ops) == 1 and isinstance(n.ops[0], (ast.NotEq, ast.Eq)) and any(isinstance(y, ast.Attribute) and y.attr == "cls_name" for x in (n.left, n.comparators[0]) for y in ast.walk(x))]
     if not w or not cmps: raise AnalysisError("visit_assignment: type writer (ClassCrossRef) / type comparison (cls_name) not found")
     T = " ".join(fi.text(next(k.value for k in w[0].keywords if k.arg == "cls_name"), at=w[0]).split())
     for c in cmps:
         inst += 1
-        other = c.comparators[0] if isinstance(c.left, ast.Attribute) and c.left.attr == "cls_name" else c.left
+        sides = [c.left, c.comparators[0]]
+        rec = next((x for x in sides if isinstance(x, ast.Attribute) and x.attr == "cls_name"), None)
+        if rec is None:
+            # the recorded type is compared through a projection (e.g. its last dotted component)
+            for pr in ("C01", "C07", "C25"): out.append(Finding(pr, "C01.i", L, "TextXVisitor.visit_assignment", " ".join(ast.unparse(c).split())[:100], "the recorded attribute type is compared through a projection, not as the full (qualified) name: same-named rules of different grammar files count as the same type and the qualified reference is not honoured", witness="t=[Thing] | '@' t=[right.Thing]"))
+            ob("C01", "C01.i", L, "TextXVisitor.visit_assignment", "recorded type compared in full", False); continue
+        other = sides[1] if sides[0] is rec else sides[0]
         T2 = " ".join(fi.text(other, at=c).split())
         ok = T == T2
         ob("C01", "C01.i", L, "TextXVisitor.visit_assignment", "recorded type %s / compared type %s" % (T[:50], T2[:50]), ok)
